@@ -16,7 +16,8 @@ RULE = ("rpc/encoded reply values (structs, arrays of simple and of struct items
         ' ; independent elements stating the target namespace as default with unprefixed type names; ids differing in case only'
         ' ; padded strings out of line'
         ' ; type names ending in a digit; envelope-level bindings overridden per element; a prefix re-bound inside an independent element'
-        ' ; xsi bound to the 1999 namespace')
+        ' ; xsi bound to the 1999 namespace'
+        ' ; childless independent elements binding the prefix of their own type')
 ASSUMPTIONS = ["references are acyclic and an href sits on a value element, not on a multiRef element itself"]
 PARTIAL = [{"theorem": "decoded values (not trees) equal", "missing": "outlined_body_decodes proves, for every tree, every set "
             "of out-lined nodes and every nesting depth, that resolution returns the inline TREE (writer = "
